@@ -28,7 +28,7 @@ func init() {
 
 func c12(r *Run) {
 	w := r.W
-	ro := rolesOf(w)
+	ro := r.roles()
 	active := activeFact(ro)
 	inactive := closedFact(ro)
 
